@@ -53,8 +53,13 @@ def replay(case) -> dict:
     fails = []
     want = _expected(tshape, tmpl, [case["paste1"]] + ([case["paste2"]] if cfg["second"] != "none" else []))
 
+    # how the simulator gets its settings: the constructor, or replace() on a simulator that was set up (and filled) with OTHER
+    # settings - components are kept, providers are evaluated at the scale in force when the simulation runs
+    via_replace = (sum(int(x) for x in cfg["p"]) + cfg["order"] + len(cfg["second"])) % 2 == 1
+    desc["settings_from"] = "replace" if via_replace else "constructor"
+
     def build(order_flip=False, dz=0.0):
-        sim = TomogramSimulator(order=cfg["order"], scale=scale)
+        sim = TomogramSimulator(order=cfg["order"], scale=scale) if not via_replace else TomogramSimulator(order=3 if cfg["order"] != 3 else 1, scale=scale * 2.0)
         p1, p2 = p1_0 + np.array([dz, 0.0, 0.0]), p2_0 + np.array([dz, 0.0, 0.0])
         m1 = Molecules(p1[None, :], R1)
         comps = []
@@ -74,6 +79,8 @@ def replay(case) -> dict:
             comps = [(m1, tmpl)]
         for i, (m, im) in enumerate(comps):
             sim.add_molecules(m, im, name=f"c{i}")
+        if via_replace:
+            sim = sim.replace(order=cfg["order"], scale=scale)
         return sim
 
     sim = build()
@@ -85,6 +92,23 @@ def replay(case) -> dict:
     if err > 2e-3:
         i = tuple(int(x) for x in np.unravel_index(int(np.argmax(np.abs(tomo - want))), tshape))
         fails.append(dict(desc, clause="ExactPaste", maxerr=round(err, 4), at=list(i), observed=float(tomo[i]), expected=float(want[i])))
+    if cfg["order"] == 0 and cfg["second"] == "none" and err <= 2e-3 and min(tshape) >= 9:
+        # nearest-neighbour simulation: a molecule a fraction of a pixel off a grid-coincident pose pastes exactly the same voxels
+        # (a 7^3 template whose density stays 2 voxels away from its own faces, as the property asks for non-grid poses)
+        t7 = np.zeros((7, 7, 7), np.float32)
+        t7[2:5, 2:5, 2:5] = (np.arange(27).reshape(3, 3, 3) % 5 + 1).astype(np.float32)
+        c7 = np.array([n // 2 for n in tshape], dtype=float)
+        want7 = np.zeros(tshape)
+        want7[tuple(slice(int(c) - 3, int(c) + 4) for c in c7)] += t7
+        for dxyz in ((0.0, 0.0, 0.3), (0.0, -0.2, 0.3), (0.4, 0.0, 0.0)):
+            off = TomogramSimulator(order=0, scale=scale) if not via_replace else TomogramSimulator(order=3, scale=scale * 2.0)
+            off.add_molecules(Molecules(((c7 + np.array(dxyz)) * scale)[None, :]), t7, name="c0")
+            if via_replace:
+                off = off.replace(order=0, scale=scale)
+            t_off = np.asarray(engine.api(off.simulate, tshape), dtype=np.float64)
+            if float(np.max(np.abs(t_off - want7))) > 2e-3:
+                fails.append(dict(desc, clause="NearestNeighbourPaste", offset=list(dxyz), maxerr=round(float(np.max(np.abs(t_off - want7))), 4)))
+                break
     if cfg["second"] == "other_component":
         # history: the second component is OVERWRITTEN by the same molecules with twice the density, on the simulator that has
         # already simulated once; the next simulation must show the new component (the simulation is linear in the density)
